@@ -493,6 +493,14 @@ def _inv(A):
     return _solve(A, _eye(n))
 
 
+def _fmod(x, y):
+    """C fmod: result has the sign of x;  x - y*trunc(x/y)."""
+    q = arith('/', x, y)
+    from .builtins_ import b_int
+    t = b_int([q], {})
+    return arith('-', x, arith('*', y, t))
+
+
 def _vectorize(f):
     I = _I()
 
@@ -584,6 +592,10 @@ def numpy_module():
         from .builtins_ import LOG10
         return SNum(LOG10(lift(x).rez()), np=True)
 
+    def np_isclose(a, b, rtol=1e-05, atol=1e-08):
+        diff = sym_abs(arith('-', a, b))
+        return ops.compare('<=', diff, arith('+', atol, arith('*', rtol, sym_abs(b))))
+
     linalg = StubModule('numpy.linalg', {
         'solve': _B('solve', _solve), 'inv': _B('inv', _inv), 'LinAlgError': _EXC['LinAlgError'], 'det': _B('det', det),
     })
@@ -597,7 +609,8 @@ def numpy_module():
         'radians': _B('radians', _elementwise(radians)), 'deg2rad': _B('deg2rad', _elementwise(radians)),
         'conj': _B('conj', _elementwise(ops.conj)), 'conjugate': _B('conj', _elementwise(ops.conj)),
         'real': _B('real', _elementwise(ops.real_part)), 'imag': _B('imag', _elementwise(ops.imag_part)),
-        'mod': _B('mod', np_mod), 'log10': _B('log10', np_log10),
+        'mod': _B('mod', np_mod), 'log10': _B('log10', np_log10), 'isclose': _B('isclose', np_isclose),
+        'fmod': _B('fmod', lambda x, y: _fmod(x, y)),
         'array': _B('array', np_array), 'zeros': _B('zeros', _zeros), 'ones': _B('ones', np_ones), 'eye': _B('eye', _eye),
         'empty': _B('empty', np_empty), 'ndarray': _B('ndarray', np_ndarray),
         'diag': _B('diag', _diag), 'hstack': _B('hstack', lambda a: _stack(a, 'h')), 'vstack': _B('vstack', lambda a: _stack(a, 'v')),
